@@ -45,8 +45,11 @@ struct Rng { unsigned long long s;
 // witness function on time or on the pin angle; the handler does nothing (the driver decides about reinitialize)
 class Witness : public TriggeredEventHandler {
 public:
-    Witness(int kind, Real level, const MobilizedBody& mb)
-    :   TriggeredEventHandler(Stage::Position), kind(kind), level(level), mb(mb) {}
+    Witness(int kind, Real level, const MobilizedBody& mb, bool loose = false)
+    :   TriggeredEventHandler(Stage::Position), kind(kind), level(level), mb(mb) {
+        // a localisation window far wider than any step: the step that contains the crossing "localises at once"
+        if (loose) getTriggerInfo().setRequiredLocalizationTimeWindow(1e4);
+    }
     Real getValue(const State& s) const override {
         if (kind == 0) return s.getTime() - level;
         if (kind == 2) return std::cos(4.3*s.getTime() + level);     // many crossings
@@ -77,7 +80,7 @@ static Integrator* makeInteg(int kind, const System& system, Real fixedStep) {
 struct Sys {
     MultibodySystem system; SimbodyMatterSubsystem matter; GeneralForceSubsystem forces;
     std::unique_ptr<MobilizedBody::Pin> p1, p2; std::unique_ptr<MobilizedBody::Slider> sl;
-    MobilizedBody b1, b2, b3;
+    MobilizedBody b1, b2, b3; std::vector<MobilizedBody::Translation> tr;
     Sys() : matter(system), forces(system) {}
 };
 
@@ -90,6 +93,14 @@ static void buildSys(Sys& S, int sysKind) {
     } else if (sysKind == 1) {
         Force::UniformGravity(S.forces, S.matter, Vec3(0,-9.8,0));
         S.p1.reset(new MobilizedBody::Pin(S.matter.Ground(), Transform(), body, Transform(Vec3(0,1,0))));
+    } else if (sysKind == 4) {
+        // six point masses on Translation mobilizers, each tied to its own ground anchor by a rod: six constraint
+        // equations of which only the swinging pendulum's carries an error (uneven errors: RMS and infinity norm differ)
+        Force::UniformGravity(S.forces, S.matter, Vec3(0,-9.8,0));
+        for (int i = 0; i < 6; ++i) {
+            S.tr.push_back(MobilizedBody::Translation(S.matter.Ground(), Transform(Vec3(2.0*i,0,0)), body, Transform()));
+            Constraint::Rod(S.matter.Ground(), Vec3(2.0*i,0,0), S.tr.back(), Vec3(0), 1.0);
+        }
     } else if (sysKind == 3) {
         // DESIGN 7.25: Ball - Gimbal chain and a Pin body, loop closed by a rod, a spring across
         Body::Rigid hb(MassProperties(1.3, Vec3(0.1,0.2,-0.15), Inertia(Vec3(0.1,0.2,-0.15),1.3) + Inertia(0.5,0.6,0.7, 0.01,0.02,-0.03)));
@@ -137,25 +148,25 @@ static bool doCall(Integrator& integ, const System& system, Real report, Real sc
         return false;
     }
     const State& s = integ.getState();
-    Real qe = 0, ue = 0;
+    Real qe = 0, ue = 0, qei = 0, uei = 0, aqei = 0, auei = 0;
     try {
         system.realize(s, Stage::Velocity);
-        if (s.getNQErr()) qe = s.getQErr().normRMS();
-        if (s.getNUErr()) ue = s.getUErr().normRMS();
-    } catch (...) { qe = ue = NaN; }
+        if (s.getNQErr()) { qe = s.getQErr().normRMS(); qei = s.getQErr().normInf(); }
+        if (s.getNUErr()) { ue = s.getUErr().normRMS(); uei = s.getUErr().normInf(); }
+    } catch (...) { qe = ue = qei = uei = NaN; }
     // the advanced state: what integration resumes from and what an event handler is given
     Real aqe = 0, aue = 0;
     try {
         const State& a = integ.getAdvancedState();
         system.realize(a, Stage::Velocity);
-        if (a.getNQErr()) aqe = a.getQErr().normRMS();
-        if (a.getNUErr()) aue = a.getUErr().normRMS();
-    } catch (...) { aqe = aue = NaN; }
+        if (a.getNQErr()) { aqe = a.getQErr().normRMS(); aqei = a.getQErr().normInf(); }
+        if (a.getNUErr()) { aue = a.getUErr().normRMS(); auei = a.getUErr().normInf(); }
+    } catch (...) { aqe = aue = aqei = auei = NaN; }
     Vec2 w(NaN, NaN);
     if (st == Integrator::ReachedEventTrigger) w = integ.getEventWindow();
-    printf("RET %s %a %a %d %a %a %a %a %a %d %a %a\n", stName(st), integ.getTime(), integ.getAdvancedTime(),
+    printf("RET %s %a %a %d %a %a %a %a %a %d %a %a %a %a %a %a\n", stName(st), integ.getTime(), integ.getAdvancedTime(),
            (int)integ.isSimulationOver(), w[0], w[1], qe, ue, integ.getConstraintToleranceInUse(),
-           (int)integ.isStateInterpolated(), aqe, aue);
+           (int)integ.isStateInterpolated(), aqe, aue, qei, uei, aqei, auei);
     return true;
 }
 
@@ -175,30 +186,49 @@ int main(int argc, char** argv) {
         if (mode == "wc21") kind = (script % 2 == 0) ? 8 : 4;     // CPodes, and RungeKuttaMerson for contrast
         int sysKind = (mode == "c21" || mode == "wmin") ? 2 : (mode == "wc21") ? 3 : (mode == "rand" ? R.k(3) : 1);
         if (mode == "rand" && sysKind == 2 && !R.p(0.5)) sysKind = 1;
+        if (mode == "c21" && R.p(0.4)) sysKind = 4;
+        // "loose" scripts: the localisation window in force is wider than the (fixed, small) steps, so the step containing a
+        // crossing is accepted as the event window at once unless a report time lies strictly inside it
+        const bool loose = (mode == "rand" && kind != 8 && R.p(0.3));
+        std::vector<Real> looseLevels;
         Sys S; buildSys(S, sysKind);
         // witness functions
         int nw = 0;
         if (mode == "wwin") { S.system.addEventHandler(new Witness(0, 0.61803, *S.p1)); nw = 1; }
+        else if (loose) {
+            nw = 1 + R.k(3);
+            for (int i = 0; i < nw; ++i) {
+                Real level = 0.03 + 0.8*R.u();
+                looseLevels.push_back(level);
+                S.system.addEventHandler(new Witness(0, level, sysKind == 0 ? (const MobilizedBody&)*S.sl : (const MobilizedBody&)*S.p1, true));
+            }
+        }
         else if ((mode == "rand" && R.p(0.5)) || (mode == "c21" && R.p(0.75))) {
             nw = 1 + R.k(2);
             for (int i = 0; i < nw; ++i) {
-                int wk = (sysKind == 0 || R.p(0.5)) ? 0 : 1;
+                int wk = (sysKind == 0 || sysKind == 4 || R.p(0.5)) ? 0 : 1;
                 if (mode == "c21" && R.p(0.5)) wk = 2;
                 Real level = wk == 0 ? 0.05 + 1.5*R.u() : wk == 2 ? R.u() : -0.5 + 1.5*R.u();
-                const MobilizedBody& mb = sysKind == 0 ? (const MobilizedBody&)*S.sl : (const MobilizedBody&)*S.p1;
+                const MobilizedBody& mb = sysKind == 0 ? (const MobilizedBody&)*S.sl : sysKind == 4 ? (const MobilizedBody&)S.tr[0] : (const MobilizedBody&)*S.p1;
                 S.system.addEventHandler(new Witness(wk, level, mb));
             }
         }
         State s = S.system.realizeTopology(); S.system.realizeModel(s);
         if (sysKind == 0) { S.sl->setOneQ(s, 0, 0.3); }
         else if (sysKind == 1) { S.p1->setOneQ(s, 0, 1.0); }
+        else if (sysKind == 4) {
+            for (int i = 0; i < 6; ++i) S.tr[i].setQ(s, Vec3(0,-1,0));           // hanging at rest
+            S.tr[2].setQ(s, Vec3(std::sin(1.0), -std::cos(1.0), 0));             // one of them swings
+            S.tr[2].setU(s, Vec3(0.3, 0.2, 0.5));
+            S.system.realize(s, Stage::Position); S.system.project(s, 1e-10);
+        }
         else if (sysKind == 3) {
             for (int i = 0; i < s.getNQ(); i++) s.updQ()[i] = 0.2 + 0.05*i;
             for (int i = 0; i < s.getNU(); i++) s.updU()[i] = 0.3 - 0.04*i;
             S.system.realize(s, Stage::Position); S.system.project(s, 1e-10); S.system.realize(s, Stage::Velocity);
         }
         else { S.p1->setOneQ(s, 0, 0.4); S.p2->setOneQ(s, 0, 0.9); }
-        const Real tStart = (mode == "rand" && R.p(0.3)) ? 0.25*R.k(5) : 0.0;
+        const Real tStart = (mode == "rand" && R.p(0.3) && !loose) ? 0.25*R.k(5) : 0.0;
         s.setTime(tStart);
         const Real fixedStep = 0.004 + 0.02*R.u();
         std::unique_ptr<Integrator> integ(makeInteg(kind, S.system, fixedStep));
@@ -225,14 +255,17 @@ int main(int argc, char** argv) {
             }
         }
         if (mode == "wcp") everyStep = true;
+        if (loose && kind != 6) integ->setFixedStepSize(fixedStep);
+        bool useInf = false;
+        if (mode == "c21" && R.p(0.5)) { useInf = true; integ->setUseInfinityNorm(true); }
         if (tFinal > 0) integ->setFinalTime(tFinal);
         if (!allowInterp) integ->setAllowInterpolation(false);
         if (everyStep) integ->setReturnEveryInternalStep(true);
         if (limit > 0) integ->setInternalStepLimit(limit);
         if (!projInterp) integ->setProjectInterpolatedStates(false);
-        printf("SCRIPT %d %s kind=%d sys=%d nw=%d final=%a allowInterp=%d everyStep=%d limit=%d projInterp=%d tStart=%a acc=%a ctol=%a mode=%s\n",
+        printf("SCRIPT %d %s kind=%d sys=%d nw=%d final=%a allowInterp=%d everyStep=%d limit=%d projInterp=%d tStart=%a acc=%a ctol=%a useInf=%d loose=%d mode=%s\n",
                script, kindName[kind], kind, sysKind, nw, tFinal, (int)allowInterp, (int)everyStep, limit, (int)projInterp,
-               tStart, acc, ctol, mode.c_str());
+               tStart, acc, ctol, (int)useInf, (int)loose, mode.c_str());
         try { integ->initialize(s); }
         catch (const std::exception& e) { printf("INITFAIL\nEND\n"); continue; }
         const Real fin = tFinal > 0 ? tFinal : Infinity;
@@ -345,6 +378,20 @@ int main(int argc, char** argv) {
             if (kind != 8 && g_exitComm == 1 && g_exitLow >= t) {
                 int o = R.k(4);
                 if (o <= 1) { report = g_exitLow; aimedLow = true; } else if (o == 2) report = t + R.u()*(g_exitLow - t);
+            }
+            // loose scripts: keep a report pending strictly inside the (short) step that will contain the next crossing
+            if (loose && !heldReport && !(g_exitComm == 1)) {
+                Real next = Infinity;
+                for (Real L : looseLevels) if (L > adv && L < next) next = L;
+                if (next < Infinity && R.p(0.7)) {
+                    Real r = next + (R.u() - 0.4)*0.6*fixedStep;
+                    if (r > t) { report = r; aimedLow = false; }
+                }
+            }
+            // hypothesis of the property (req_ok): no new report time strictly inside an event window that an earlier call
+            // localized but has not reported yet (the violation of that hypothesis is the known finding, witness mode wwin)
+            if (g_exitComm == 1 && g_exitLow < report && report < g_exitHigh) {
+                if (R.p(0.5) && g_exitLow >= t) { report = g_exitLow; aimedLow = true; } else report = g_exitHigh;
             }
             if (report < t && !heldReport) report = t;
             if (heldReport) aimedLow = false;
